@@ -66,6 +66,13 @@ def run(res, rng, tier, known):
                                   ("mul", lambda x=x, y=y: x * y, lambda dx=dx, dy=dy: dx * dy, Rmul)):
                 box, impl = boxed(f)
                 cases.append(Case(J(op, tt_tokens(x), tt_tokens(y)), impl, chk_tt(box, dn, dt, rk, N), "%s/%s" % (op, tag), nt))
+            # --- the same object in both argument positions (x + x, x - x, x * x, x ** x)
+            Rself_add = [1] + [2 * a for a in Rx[1:-1]] + [1]
+            for op, f, dn, rk in (("add", lambda x=x: x + x, lambda dx=dx: dx + dx, Rself_add),
+                                  ("sub", lambda x=x: x - x, lambda dx=dx: dx - dx, Rself_add),
+                                  ("mul", lambda x=x: x * x, lambda dx=dx: dx * dx, [a * a for a in Rx])):
+                box, impl = boxed(f)
+                cases.append(Case(J(op, tt_tokens(x), tt_tokens(x)), impl, chk_tt(box, dn, dt, rk, N), "%s-self/%s" % (op, tag), nt))
             # --- unary minus, full
             box, impl = boxed(lambda x=x: -x)
             cases.append(Case(J("neg", tt_tokens(x)), impl, chk_tt(box, lambda dx=dx: -dx, dt, Rx, N), "neg/" + tag, nt))
